@@ -6,7 +6,7 @@ ID = "C18"
 LEVEL = "proof"
 PROPS_FILE = "C18.v"
 RUN_MODULE = "RunC18"
-TRANSLATOR_UNITS = []
+TRANSLATOR_UNITS = ["io"]
 RULE = ("port algebra: exhaustive one-step scope (widths 0..4: every int index in [-w-1,w], every slice with start/stop in "
         "{None} u [-w-1,w+1] x step in {None,1,2,3,-1,-2,0} (all of them in thorough; in quick all for w <= 1 and a 30% sample "
         "for w >= 2), every inversion mask for int indices, 2 masks for slices; `+` of every direction pair and kind pair; `~`) "
